@@ -187,6 +187,7 @@ type Exec struct {
 	decoderFn         *types.Func
 	decoderTarget     string // set by callFunc for a library decoder whose target is a blank private object (escape.go)
 	localOrd          map[types.Object]int // declaration ordinal of every local of the unit (locals.go)
+	movedLoops        map[ast.Node]bool // loops under invariant that now live in an inlined helper (locals.go: remapMovedLoops)
 	loopOrdinals      map[ast.Node]int // static (source-order) ordinal of every loop of the unit under verification
 }
 
@@ -1443,6 +1444,17 @@ func (ex *Exec) loopClauses(ord int) []*Clause {
 	return ex.contract.Loops[ord]
 }
 
+// loopClausesAt: like loopClauses, but a loop that moved into an inlined helper keeps the invariants written for it.
+func (ex *Exec) loopClausesAt(ord int, node ast.Node) []*Clause {
+	if ex.contract == nil || ord <= 0 {
+		return nil
+	}
+	if len(ex.inlineStack) > 0 && !ex.movedLoops[node] {
+		return nil
+	}
+	return ex.contract.Loops[ord]
+}
+
 func (ex *Exec) havocVars(p *Path, vars []types.Object) {
 	for _, o := range vars {
 		if r, isCell := p.cells[o]; isCell {
@@ -1489,13 +1501,13 @@ func (ex *Exec) assumeInvariants(p *Path, invs []*Clause) {
 
 func (ex *Exec) execRange(p *Path, st *ast.RangeStmt) []outcome {
 	ord := -1
-	if len(ex.inlineStack) == 0 {
-		if n, ok := ex.loopOrdinals[st]; ok {
+	if len(ex.inlineStack) == 0 || ex.movedLoops[st] {
+		if n, ok := ex.loopOrdinals[st]; ok && n > 0 {
 			ord = n
 		}
 	}
 	coll := ex.eval(p, st.X)
-	invs := ex.loopClauses(ord)
+	invs := ex.loopClausesAt(ord, st)
 	modVars, heapW := ex.assignedIn(st.Body)
 	fieldWrites, unknownWrites := ex.lastFieldWrites, ex.lastUnknownWrites
 	// loop variables declared by the range statement
@@ -1679,8 +1691,8 @@ func (ex *Exec) execRange(p *Path, st *ast.RangeStmt) []outcome {
 
 func (ex *Exec) execFor(p *Path, st *ast.ForStmt) []outcome {
 	ord := -1
-	if len(ex.inlineStack) == 0 {
-		if n, ok := ex.loopOrdinals[st]; ok {
+	if len(ex.inlineStack) == 0 || ex.movedLoops[st] {
+		if n, ok := ex.loopOrdinals[st]; ok && n > 0 {
 			ord = n
 		}
 	}
@@ -1691,7 +1703,7 @@ func (ex *Exec) execFor(p *Path, st *ast.ForStmt) []outcome {
 		}
 		p = outs[0].p
 	}
-	invs := ex.loopClauses(ord)
+	invs := ex.loopClausesAt(ord, st)
 	body := &ast.BlockStmt{List: st.Body.List}
 	var nodes ast.Node = body
 	modVars, heapW := ex.assignedIn(nodes)
